@@ -445,6 +445,26 @@ func TestC03Sim(t *testing.T) {
 				if covered(acked, 0, int64(len(v.data))) && !sentLogged && len(nvers) >= 2 {
 					key = "stuck-two-versions-of-a-name-in-flight-never-polled"
 				}
+				// variant: the newest version was logged as sent, but a part of an OLDER version of the
+				// name went over the wire after the newest version's first part (both in flight); the
+				// poll entry for the name then belongs to the older version and its verdict is ignored
+				if covered(acked, 0, int64(len(v.data))) && sentLogged && len(nvers) >= 2 {
+					firstNew, lastOld := 1<<62, -1
+					for _, wp := range s.wire {
+						if wp.name != name {
+							continue
+						}
+						if wp.hash == v.hash && wp.seq < firstNew {
+							firstNew = wp.seq
+						}
+						if wp.hash != v.hash && wp.seq > lastOld {
+							lastOld = wp.seq
+						}
+					}
+					if lastOld > firstNew {
+						key = "stuck-two-versions-of-a-name-in-flight-poll-belongs-to-older-version"
+					}
+				}
 			}
 			s.viol("C03", key, "after the last perturbation the system was left alone for %v of simulated time, yet: %s", bound, s.stuckReport())
 		}
